@@ -293,6 +293,7 @@ func (pkg *Package) schemaFromDesc(context fieldContext, schema *schema_j5pb.Fie
 			fieldContext: context,
 			OnlyDefined:  st.Any.OnlyDefined,
 			Types:        stringSliceConvert[string, protoreflect.FullName](st.Any.Types),
+			ListRules:    st.Any.ListRules,
 		}, nil
 
 	default:
